@@ -68,12 +68,13 @@ CHECKS = {
     "C15": dict(
         engine="cli", cat="exploration", ref="DESIGN.md §4.2",
         technique="deterministic simulation of auditok.cmdline.main(argv) "
-                  "under the seeded scheduler with virtual time, simulated "
-                  "stdin and KeyboardInterrupt injection; API-differential "
-                  "oracle",
+                  "under the seeded scheduler with virtual time and simulated "
+                  "stdin (slow / stalled source, slow disk and stdout, queue "
+                  "timeouts, missing encoder); API-differential oracle",
         text="cmdline.main runs whole as the main simulated thread (real "
              "argparse, real workers) with drawn option subsets/values, "
-             "file/stdin inputs, schedules, timeouts and interrupts; stdout, "
+             "file/stdin inputs, schedules and timeouts (interrupted cli "
+             "runs belong to C14 and are generated there); stdout, "
              "exit status and files are compared with the sequential API "
              "call for the documented option mapping and defaults.",
         note="Formatter/argparse sub-claims are decided only on the values "
